@@ -4,6 +4,7 @@ from .. import witness, effects, callgraph
 from ..vflow import Canon, access_path, fields_in_path, strip_ptr_casts, strip_int_casts, const_int
 from ..cfg import reaches_without
 from ..build import AnalysisBroken
+from . import shared
 
 EXPLANATION = (
     "Static decision of the structural clauses of C07 on the current /repo tree. W07: _Static_assert battery over "
@@ -170,7 +171,11 @@ def run(ctx):
     C = Canon(P, f)
     allocs = [i for i in f.insts() if i.op == 'call' and i.callee == '@alloc_fragment_buffer']
     sizes = {C.val(i.ops[0]) for i in allocs}
-    if len(allocs) < 2:
+    tot7 = shared.total_iterations(P, f, allocs) if allocs else None
+    if len(allocs) == 1 and tot7 is not None and shared.is_k_plus_m_poly(tot7):
+        r.ok(f'alloc_fragment_buffer({C.val(allocs[0].ops[0])}) in one loop over all k + m fragments', loc=allocs[0].loc, func=f.name)
+        r.ok('one allocation site: every fragment of the stripe gets the same size', loc=allocs[0].loc, func=f.name, trivial=True)
+    elif len(allocs) < 2:
         r.undecided('prepare_fragments_for_encode allocations', msg=f'expected data and parity allocation sites, found {len(allocs)}')
     elif len(sizes) == 1:
         for i in allocs:
@@ -182,6 +187,33 @@ def run(ctx):
                        loc=i.loc, msg='fragments of one stripe are allocated with different sizes')
     ctx.assume('clang-14 and the repo\'s configured flags define the ABI of the packed header (x86-64, little endian)')
     from . import c01, c08, c15
+    r = ctx.rule('R07e', 'flat-XOR equation tables: every entry of every accepted shape equals the reference contents (lecverif/xor_tables_ref.json)',
+                 'parity bytes are part of the wire format: another valid code for a shape writes stripes older builds decode to wrong data, and misreads theirs')
+    import json as _json, os as _os
+    from .. import xorrules as _xr7
+    ref7 = _json.load(open(_os.path.join(_os.path.dirname(_os.path.dirname(_os.path.abspath(__file__))), 'xor_tables_ref.json')))
+    mod7 = P.mod('src/builtin/xor_codes/xor_hd_code.c')
+    acc7, _box7 = _xr7.accepted_shapes(P)
+    for (k7, m7, hd7), a7 in sorted(acc7.items()):
+        key7 = f'{k7},{m7},{hd7}'
+        Pt7, Dt7 = _xr7.table_ints(P, mod7, a7['parity']), _xr7.table_ints(P, mod7, a7['data'])
+        inst = f'flat-XOR tables of shape ({key7})'
+        want7 = ref7.get(key7)
+        if want7 is None:
+            r.info(inst, msg='a shape the reference tree does not accept (no stored stripes to stay compatible with)')
+        elif Pt7 == want7['parity'] and Dt7 == want7['data']:
+            r.ok(inst + ' equal the reference', func='@init_xor_hd_code', loc=mod7.src)
+        else:
+            which = 'parity' if Pt7 != want7['parity'] else 'data'
+            got7 = Pt7 if which == 'parity' else Dt7
+            diff7 = [n_ for n_, (x_, y_) in enumerate(zip(got7 or [], want7[which])) if x_ != y_][:3] if got7 and len(got7) == len(want7[which]) else 'length'
+            r.fail(inst, func='@init_xor_hd_code', sig=f'({key7}) {which} table differs from the reference at {diff7}', loc=mod7.src,
+                   msg=f'the {which}-side table of shape ({key7}) differs from the reference contents (entries {diff7}): parity fragments of this shape change, '
+                       'stripes written by other builds decode to wrong data')
+    for key7 in sorted(set(ref7) - {f'{k_},{m_},{h_}' for (k_, m_, h_) in acc7}):
+        r.fail(f'flat-XOR shape ({key7}) still accepted', func='@init_xor_hd_code', sig=f'shape ({key7}) no longer accepted', loc=mod7.src,
+               msg=f'shape ({key7}) is accepted by the reference tree but not by this one: stripes stored with it can no longer be read')
+    r.require_min(38)
     r = ctx.rule('R07d', 'instance_create keeps the caller\'s arguments as given: the argument block is copied whole and no member of it is stored to',
                  'ct is written into every header (offset 20) exactly as the caller passed it: a "normalised" value changes the bytes of every fragment of that configuration')
     cf = P.fn('liberasurecode_instance_create')
